@@ -372,6 +372,24 @@ func init() {
 					}
 					beta := c15RandE(r)
 					for within := uint64(0); within < 16; within++ {
+						// beta equal to one of the sixteen coset points is the documented degenerate case
+						// (the reference returns the stored evaluation, the circuit asserts a non-zero
+						// denominator): not judged, only counted
+						if beta[1] == 0 {
+							g16 := ref.PrimitiveRoot(4)
+							pt := ref.Mul(x, ref.Exp(g16, 16-ref.ReverseBits(within, 4)))
+							hit := false
+							for i := 0; i < 16; i++ {
+								if pt == beta[0] {
+									hit = true
+								}
+								pt = ref.Mul(pt, g16)
+							}
+							if hit {
+								o.Inc("info_beta_on_coset_point_not_judged")
+								continue
+							}
+						}
 						want := ref.ComputeEvaluation(x, within, 4, evals, beta)
 						var out gl.QuadraticExtensionVariable
 						res := harnRunOpt(engine.Options{Face: engine.Native}, func(api frontend.API) error {
